@@ -31,6 +31,8 @@ def repo_copy(w, name='repo-copy'):
 def varpool_model_and_replay(w, rep, maxlen):
     """-> (states, histories, replay summary)"""
     cfg = open(os.path.join(pl.VERIF, 'spec', 'VarPoolFixed.cfg')).read().replace('MaxLen = 4', 'MaxLen = %d' % maxlen)
+    if maxlen >= 5:
+        cfg = cfg.replace('Requests <- ReqSet', 'Requests <- ReqSet5')     # 9^5 histories instead of 12^5
     r = pl.tlc(w, 'VarPoolMC', 'VarPoolRun.cfg', files={'VarPoolRun.cfg': cfg}, workers=1, timeout=3000, name='varpool')
     model_ok = 'Model checking completed. No error has been found' in r['out']
     hp = os.path.join(r['dir'], 'histories.json')
